@@ -204,6 +204,29 @@ struct BaseContiguousParameterTraits
 
     static auto data_end(const cntgs::Span<T>& value) noexcept { return reinterpret_cast<std::byte*>(std::end(value)); }
 
+    static void copy(const cntgs::Span<std::add_const_t<T>>& source,
+                     const cntgs::Span<T>& target) noexcept(std::is_nothrow_copy_assignable_v<T>)
+    {
+        std::copy(std::begin(source), std::end(source), std::begin(target));
+    }
+
+    static void copy(const cntgs::Span<T>& source,
+                     const cntgs::Span<T>& target) noexcept(std::is_nothrow_copy_assignable_v<T>)
+    {
+        std::copy(std::begin(source), std::end(source), std::begin(target));
+    }
+
+    static void move(const cntgs::Span<T>& source,
+                     const cntgs::Span<T>& target) noexcept(std::is_nothrow_move_assignable_v<T>)
+    {
+        std::move(std::begin(source), std::end(source), std::begin(target));
+    }
+
+    static void swap(const cntgs::Span<T>& lhs, const cntgs::Span<T>& rhs) noexcept(std::is_nothrow_swappable_v<T>)
+    {
+        std::swap_ranges(std::begin(lhs), std::end(lhs), std::begin(rhs));
+    }
+
     static constexpr void uninitialized_copy(
         const cntgs::Span<std::add_const_t<T>>& source,
         const cntgs::Span<T>& target) noexcept(std::is_nothrow_copy_constructible_v<T>)
@@ -413,29 +436,6 @@ struct ParameterTraits<cntgs::FixedSize<cntgs::AlignAs<T, Alignment>>> : BaseCon
         }
         const auto padding_offset = detail::align_if<(TRAILING_ALIGNMENT < NextAlignment), NextAlignment>(new_offset);
         return {new_offset, size, padding_offset - new_offset, (std::max)(alignment, ALIGNMENT)};
-    }
-
-    static void copy(const cntgs::Span<std::add_const_t<T>>& source,
-                     const cntgs::Span<T>& target) noexcept(std::is_nothrow_copy_assignable_v<T>)
-    {
-        std::copy(std::begin(source), std::end(source), std::begin(target));
-    }
-
-    static void copy(const cntgs::Span<T>& source,
-                     const cntgs::Span<T>& target) noexcept(std::is_nothrow_copy_assignable_v<T>)
-    {
-        std::copy(std::begin(source), std::end(source), std::begin(target));
-    }
-
-    static void move(const cntgs::Span<T>& source,
-                     const cntgs::Span<T>& target) noexcept(std::is_nothrow_move_assignable_v<T>)
-    {
-        std::move(std::begin(source), std::end(source), std::begin(target));
-    }
-
-    static void swap(const cntgs::Span<T>& lhs, const cntgs::Span<T>& rhs) noexcept(std::is_nothrow_swappable_v<T>)
-    {
-        std::swap_ranges(std::begin(lhs), std::end(lhs), std::begin(rhs));
     }
 };
 }  // namespace cntgs::detail
